@@ -238,6 +238,20 @@ def branch_typed(rng: random.Random) -> tuple[list[dict], list[dict] | None, str
     return mk(good), mk(bad), flaw
 
 
+def self_typed(rng: random.Random) -> tuple[list[dict], list[dict] | None, str]:
+    """strict_types and an ACCUMULATOR: `add` reads and writes `messages`, seeded by `init` (ordered by a signal). What `add` returns flows
+    back into its own parameter, so its return type is checked against that parameter — in either node order."""
+    t_ok, t_bad = rng.choice([("int", "str"), ("str", "int"), ({"g": "list", "a": ["int"]}, "int")])
+    init = {"name": "init", "kind": "fn", "params": [], "dataOuts": ["messages"], "body": {"b": "const", "v": 0}, "emits": ["seeded"], "ann": {"return": t_ok}}
+    add = {"name": "add", "kind": "fn", "params": [["messages", None]], "dataOuts": ["messages"], "body": {"b": "first"}, "waitFor": ["seeded"],
+           "ann": {"messages": t_ok, "return": t_ok}}
+    bad_add = copy.deepcopy(add)
+    bad_add["ann"]["return"] = t_bad
+    order = rng.choice([[0, 1], [1, 0]])
+    mk = lambda ns: [{"name": "g0", "nodes": [ns[i] for i in order], "bound": [], "strict": True}]   # noqa: E731
+    return mk([init, add]), mk([init, bad_add]), "type_mismatch_self_feed"
+
+
 def mapped_typed(rng: random.Random) -> tuple[list[dict], list[dict] | None, str]:
     """strict_types around a MAPPING nested graph: the mapped input takes the list of items, a broadcast input takes the plain value, every
     output is a list of per-item results."""
@@ -560,7 +574,7 @@ class C19(Prop):
         d1 = [e for _, e in tu.type_universe(1)] if tier == "thorough" else None
         i = 0
         # every dedicated family is visited several times per run, whatever the seed
-        forced = [n_way_gate, signal_branches, explicit_typed, mapped_typed, signal_branches, tuple_typed, branch_typed] * 4 + [three_producers, hidden_wait] * 3
+        forced = [n_way_gate, signal_branches, explicit_typed, mapped_typed, signal_branches, tuple_typed, branch_typed] * 4 + [three_producers, hidden_wait] * 3 + [self_typed] * 4
         while True:
             i += 1
             if i % 4 == 0:
@@ -575,7 +589,7 @@ class C19(Prop):
                 continue
             r = rng.random()
             if forced or r < 0.09:
-                fam = forced.pop() if forced else rng.choice([n_way_gate, signal_branches, signal_branches, explicit_typed, mapped_typed, tuple_typed, branch_typed, three_producers, hidden_wait])
+                fam = forced.pop() if forced else rng.choice([n_way_gate, signal_branches, signal_branches, explicit_typed, mapped_typed, tuple_typed, branch_typed, three_producers, hidden_wait, self_typed])
                 valid, flawed, flaw = fam(rng)
                 if rng.random() < 0.3 and fam is not mapped_typed and fam is not hidden_wait:
                     # the same inside a nested graph
